@@ -19,6 +19,10 @@ CLAIMED = {
             'In-place exactly when the new size fits with <=50% waste; on a move min(old usable, new) bytes are copied before the single free of the old block; the old block is freed iff a different non-NULL pointer is returned; NULL input = allocation; zero size = minimal block; failing realloc has an empty effect log; reallocf frees on failure; mi_expand never moves and succeeds iff new <= usable; aligned variants keep (p+offset) aligned — theorems for every allocator oracle over definitions regenerated from alloc.c / alloc-aligned.c; decisions of the real realloc/expand are compared with the generated predicates; contents, usable size, alignment and live-block counts are checked on the real allocator.',
             TB + 'the allocator underneath realloc (malloc/free/usable_size) is an oracle here and is the subject of C01; memcpy semantics assumed.',
             'DESIGN.md §4 C05'),
+    'C17': ('Lean 4 theorems over the secure-mode link-encoding / double-free / padding functions regenerated from the C source, plus function-level correspondence on real blocks',
+            'decode(encode p) = p for all keys and words (NULL and in-page links survive), the double-free quick filter never hides a block whose first word is a genuine encoded link, a link decoding outside the page is reported EFAULT and cut, genuine links are followed, set_next stores exactly the encoding, a wrong canary or oversized delta fails the padding check, the canary low byte is 0: theorems about definitions regenerated from internal.h/free.c in the -DMI_SECURE=4 configuration; the generated functions are compared with the compiled ones on real blocks (2.8k comparisons per run); a secure-build and a debug-build oracle inject double frees, overflowing bytes and forged links into histories and check the error codes, no double hand-out and no address outside the heap afterwards.',
+            TB + 'the list walk of mi_check_is_double_freex and the fill-byte loop of mi_verify_padding are exercised by the harness, not modelled; exclusions as in the property text.',
+            'DESIGN.md §4 C17'),
 }
 NOT_YET = 'check not built yet (work in progress in this session; see DESIGN.md §12 implementation order)'
 def main():
